@@ -117,7 +117,7 @@ def main():
     res = core.run_verus(path, rlimit=rlimit, extra=meta.get('verus_args', ()))
     js = res['json']
     errors = res['errors']
-    if js is None and not errors:
+    if 'panicked at' in res['stderr'] or 'Internal Verus Error' in res['stderr'] or js is None or 'verification-results' not in js:
         return undecided('tool-failure', res['stderr'][-3000:])
 
     # classify
